@@ -840,6 +840,11 @@ def _sched_units(ctx: Ctx, rng: Rng) -> List[dict]:
     for i in range(ctx.scale(2, 10)):
         g = {"size": 1 + (i % 3 == 2 and ctx.thorough), "n_topologies": 1 + i % 2, "n_net": 3 + (i // 2) % 2, "n_agents": 2, "extra_entries": 1 + i % 3}
         units.append({"kind": "sched", "label": f"generated-{i}", "gen": g, "episodes": None, "only": None, "steps": steps, "rng": rng.fork(f"gen{i}"), "weight": 8})
+    # folders over the shipped WIRELESS scenario: the episodes differ in airspace capacities (an override, then none), `defaults`, io_settings
+    for i in range(ctx.scale(1, 3)):
+        g = {"n_topologies": 1, "n_net": 3 + i % 2, "n_agents": 2, "extra_entries": 1 + i % 2}
+        units.append({"kind": "sched", "label": f"generated-wireless-{i}", "gen": g, "base": "wireless_wan_network_config", "episodes": None, "only": None,
+                      "steps": steps, "rng": rng.fork(f"genw{i}"), "weight": 8})
     return units
 
 
@@ -853,8 +858,22 @@ def _do_sched(rec: Rec, unit: dict):
         folder = episodic_dir(unit["dir"])
     else:
         folder = str(Path(tempfile.mkdtemp(prefix="c04g_", dir=_W.get("tmp"))) / "scenario")
-        desc = isd.gen_folder(rng.fork("folder"), Path(folder), **unit["gen"])
+        base_cfgs = None
+        if unit.get("base"):
+            b = _load(unit["base"])
+            if b is None:
+                rec.notes.append(f"schedule {unit['label']}: scenario {unit['base']} missing")
+                return
+            base_cfgs = [_aug(b, rng.fork("aug"), 40)]
+        desc = isd.gen_folder(rng.fork("folder"), Path(folder), base_cfgs=base_cfgs, **unit["gen"])
         rec.count("sched:generated-folder")
+        for v in desc["air"].values():
+            rec.count("sched:variant-airspace:" + ("absent" if v == "<absent>" else "override"))
+        for v in desc["defaults"].values():
+            rec.count("sched:variant-defaults:" + ("empty" if not v else "durations-set"))
+            if any(x == 0 for x in v.values()):
+                rec.count("sched:variant-defaults:with-a-zero-duration")
+        rec.count("sched:variant-io-log-levels-distinct", len({json.dumps(v, sort_keys=True) for v in desc["io"].values()}))
         for v in desc["nmne"].values():
             rec.count("sched:variant-nmne:" + ("absent" if v == "<absent>" else "empty" if v == {} else "capture-on" if v.get("capture_nmne") else "capture-off"))
         rec.count("sched:generated-topologies", len(desc["topologies"]))
@@ -1018,6 +1037,27 @@ def _do_order(rec: Rec, unit: dict):
     rec.case({"k": "order", "sc": label, "n": r["events"]}, True)
     rec.oblige("rig: every non-sink reader function of the readable run-time written globals could be resolved for monitoring", "correspondence",
                not r["unresolved"], f"{r['unresolved']}")
+    # cross-check of the STATIC call graph (Gen.reachBeforeWrite): the package functions ENTERED before the operation's write on this run
+    inv = _W["inv"]
+    static: Dict[str, set] = {}
+    for row in inv.reach:
+        static.setdefault(row["op"], set()).update(row["reached"])
+    for op in ("__init__", "reset"):
+        allowed = static.get(op, set()) | static.get("from_config", set()) | {"session.environment:PrimaiteGymEnv." + op, x_ss.ANCHOR}
+        dyn = {f for f in r["before_write"][op] if f in inv.callgraph.byqual}      # class bodies executed by a first import are no functions
+        missed = sorted(dyn - allowed)
+        rec.count("order:functions-entered-before-the-write", len(dyn))
+        rec.count("order:…of-which-in-the-static-call-graph", len(dyn & allowed))
+        bad = []
+        for n in _READ_GLOBALS:
+            rd, trunc = x_ss.readers_reachable_from(inv, missed, n)
+            if rd or trunc:
+                bad.append((n, rd, trunc))
+        for f in missed:
+            rec.count("order:entered-but-not-in-static-graph(callback from third-party code):" + f)
+        rec.oblige(f"extractor cross-check[{label}/{op}]: every package function entered before the operation's write is in the static call "
+                   "graph, or (callbacks invoked by pydantic / logging) reaches no reader of the global itself", "extractor", not bad,
+                   f"missed={missed} reach readers: {bad}")
     for p in r["problems"][:2]:
         rec.violation({"kind": "operation-order", "what": p["kind"], "global": p["global"].split(".")[-1]},
                       f"{label}: in `{p['operation']}` the global {p['global']} is " +
